@@ -1,6 +1,6 @@
 import Hls.Playlist.MediaStructure
 import Hls.Playlist.MediaNear
-import Hls.Playlist.MediaGrammar
+import Hls.Playlist.MediaGrammarMain
 /-!
 # C15 — Playlist decoder is total; encoder output is grammatical M3U8 (MEDIA playlists)
 
@@ -56,5 +56,66 @@ example : Media.unmarshal Codec.exact cs!"#EXTM3U\n#EXT-X-TARGETDURATION:2\n#EXT
 
 /-- regression witness: the guard the structure clause rests on — `EXTINF:0` is rejected -/
 example : Media.unmarshal Codec.exact cs!"#EXTM3U\n#EXT-X-TARGETDURATION:2\n#EXTINF:0.00000,\nu\n" = .err := by decide
+
+/-! ## encoder output is grammatical
+
+`Hls.Playlist.MG.accepts` (`Hls/Playlist/MediaGrammar.lean`) is a strict recogniser of media
+playlists written from RFC 8216 §4 / 8216bis, independent of the decoder: `#EXTM3U` first, only
+media-playlist tags, each at most where and as often as it is allowed, attribute lists with known,
+unique, correctly typed attributes, every URI line preceded by exactly one EXTINF.
+`accepts false` is the strict dialect, `accepts true` additionally tolerates an unquoted
+`BYTERANGE=n[@o]` on EXT-X-MAP / EXT-X-PART. -/
+
+open Hls.Playlist.MG in
+/-- **Grammar.** The output of `Media.marshal` on any well-formed value is accepted.  In the strict
+dialect this needs that no EXT-X-MAP / EXT-X-PART carries a byte range (finding F17: the library
+writes that attribute unquoted, RFC 8216 §4.3.2.5 and 8216bis §4.4.4.9 want a quoted-string).
+`TimeGrammatical C` says that the codec's date-time text is an RFC 3339 date-time. -/
+theorem c15_grammar (C : Codec) (hC : C.Valid) (hT : TimeGrammatical C) (L : Bool) (p : Media) (hw : WFMedia p)
+    (hL : L = true ∨ NoAttrByteRange p) : accepts L (Media.marshal C p) = true :=
+  grammar_accepts hC L hT p hw hL
+
+open Hls.Playlist.MG in
+/-- the tolerant dialect accepts every marshaled well-formed value -/
+theorem c15_grammar_lenient (C : Codec) (hC : C.Valid) (hT : TimeGrammatical C) (p : Media) (hw : WFMedia p) :
+    accepts true (Media.marshal C p) = true :=
+  c15_grammar C hC hT true p hw (Or.inl rfl)
+
+open Hls.Playlist.MG in
+/-- the strict dialect accepts it when no attribute byte range is present -/
+theorem c15_grammar_strict (C : Codec) (hC : C.Valid) (hT : TimeGrammatical C) (p : Media) (hw : WFMedia p)
+    (hb : NoAttrByteRange p) : accepts false (Media.marshal C p) = true :=
+  c15_grammar C hC hT false p hw (Or.inr hb)
+
+open Hls.Playlist.MG in
+/-- the hypotheses are jointly satisfiable -/
+theorem c15_codec_exists : Codec.exact.Valid ∧ TimeGrammatical Codec.exact :=
+  ⟨Codec.exact_valid, exact_timeGrammatical⟩
+
+/-- the Go layout on samples ("test", not an obligation): `Time.Format` output is a date-time of the grammar -/
+example : Hls.Playlist.MG.isDateTime (goFormatTime { sec := 1408924800, nsec := 123456789, off := -19800 }) = true ∧
+    Hls.Playlist.MG.isDateTime (goFormatTime { sec := -62167219200, nsec := 0, off := 0 }) = true ∧
+    Hls.Playlist.MG.isDateTime (goFormatTime { sec := 253402300799, nsec := 999000000, off := 0 }) = true ∧
+    Hls.Playlist.MG.isDateTime (goFormatTime { sec := 951782400, nsec := 1000000, off := 86340 }) = true := by decide
+
+/-- **F17** (finding): a well-formed value with a byte range on EXT-X-MAP is written
+`#EXT-X-MAP:URI="i",BYTERANGE=720@0`; the strict dialect rejects it, the tolerant one accepts it. -/
+def pF17 : Media :=
+  { version := 7, targetDuration := 2, map := some { uri := cs!"i", brLen := some 720, brStart := some 0 },
+    segments := [{ duration := 2000000000, uri := cs!"s.mp4" }] }
+
+set_option maxRecDepth 100000 in
+theorem c15_F17_unquoted_byterange :
+    WFMedia pF17 ∧ Hls.Playlist.MG.accepts false (Media.marshal Codec.exact pF17) = false ∧
+      Hls.Playlist.MG.accepts true (Media.marshal Codec.exact pF17) = true := by decide
+
+set_option maxRecDepth 100000 in
+/-- **F3** on the unchanged tree: `#EXT-X-SERVER-CONTROL:,PART-HOLD-BACK=3.00000` is not grammatical in
+either dialect; the repaired encoder's output is -/
+theorem c15_legacy_F3_not_grammatical :
+    let p : Media := { version := 9, targetDuration := 2, serverControl := some { partHoldBack := some 3000000000 },
+                       segments := [{ duration := 2000000000, uri := cs!"s.ts" }] }
+    WFMedia p ∧ Hls.Playlist.MG.accepts true (Media.marshalLegacy Codec.exact p) = false ∧
+      Hls.Playlist.MG.accepts false (Media.marshal Codec.exact p) = true := by decide
 
 end Hls.Props.C15
